@@ -11,18 +11,54 @@ import (
 // returned.
 type AsyncEventBroker[E any] struct {
 	sync.RWMutex
-	listenerNames []string  // Ordered listener names.
-	listenerFuncs []func(E) // Ordered listener functions.
+	listenerNames []string            // Ordered listener names.
+	listenerFuncs []*asyncListener[E] // Ordered listener functions.
 }
 
-// Emit sends the provided event to each registered listener in parallel.
+// asyncListener delivers events to one listener function, one at a time and in emit order.
+type asyncListener[E any] struct {
+	sync.Mutex
+	fn      func(E)
+	pending []E  // Events not yet delivered.
+	running bool // A goroutine is delivering pending events.
+}
+
+// push queues the event, starting a delivery goroutine unless one is already running.
+func (al *asyncListener[E]) push(event E) {
+	al.Lock()
+	defer al.Unlock()
+	al.pending = append(al.pending, event)
+	if !al.running {
+		al.running = true
+		go al.deliver()
+	}
+}
+
+// deliver calls the listener for each pending event, then exits.
+func (al *asyncListener[E]) deliver() {
+	for {
+		al.Lock()
+		if len(al.pending) == 0 {
+			al.running = false
+			al.Unlock()
+			return
+		}
+		event := al.pending[0]
+		al.pending = al.pending[1:]
+		al.Unlock()
+		al.fn(event)
+	}
+}
+
+// Emit sends the provided event to each registered listener in parallel.  A listener will not be
+// called with this event until its call for the previous one has completed.
 func (eb *AsyncEventBroker[E]) Emit(event *E) {
 	eb.RLock()
 	defer eb.RUnlock()
 
 	for _, l := range eb.listenerFuncs {
 		// Events are copied to minimize the risk of mutation.
-		go l(*event)
+		l.push(*event)
 	}
 }
 
@@ -35,7 +71,7 @@ func (eb *AsyncEventBroker[E]) AddListener(name string, listener func(E)) {
 
 	eb.lockedRemoveListener(name)
 	eb.listenerNames = append(eb.listenerNames, name)
-	eb.listenerFuncs = append(eb.listenerFuncs, listener)
+	eb.listenerFuncs = append(eb.listenerFuncs, &asyncListener[E]{fn: listener})
 }
 
 // RemoveListener unregisters the named listener.
